@@ -21,10 +21,14 @@ def doc(body, prolog="", decl='<?xml version="1.0"?>'):
     return "%s\n%s\n%s%s\n" % (decl, PI, prolog, body)
 
 
-def inp(name, xsl, xml, f=None, sorted_xml=None, sparam=("ps", "sv"), nparam=("pn", "2.5"), extra=None):
-    files = {"main.xsl": xsl, "in.xml": xml, "in_sorted.xml": sorted_xml if sorted_xml is not None else xml}
+def inp(name, xsl, xml, f=None, sorted_xml=None, sparam=("ps", "sv"), nparam=("pn", "2.5"), extra=None, ctl=()):
+    """ctl: the control experiments this input carries (see Trace_C05.tla): "nsaxis" -> in_xmlnsxml.xml, "dtd" -> in_nodtd.xml,
+    "cdataelems" -> main_nocdata.xsl + in_nocdata.xml (the PI pointing to it)"""
+    files = {"main.xsl": xsl, "in.xml": xml}
+    if sorted_xml is not None:
+        files["in_sorted.xml"] = sorted_xml
     files.update(extra or {})
-    return {"name": name, "kind": "hand", "files": files, "feat": f or feat(), "sparam": list(sparam) if sparam else None, "nparam": list(nparam) if nparam else None}
+    return {"name": name, "kind": "hand", "files": files, "feat": f or feat(), "sparam": list(sparam) if sparam else None, "nparam": list(nparam) if nparam else None, "ctl": list(ctl)}
 
 
 IDENTITY = '<xsl:template match="@*|node()"><xsl:copy><xsl:apply-templates select="@*|node()"/></xsl:copy></xsl:template>'
@@ -65,7 +69,7 @@ def handmade():
     # ---- namespaces
     L.append(inp("ns-identity", ss(IDENTITY), doc(DOC_NS)))
     L.append(inp("ns-dump", ss('<xsl:template match="/"><out><xsl:for-each select="//*|//@*"><n q="{name()}" l="{local-name()}" u="{namespace-uri()}" ns="{count(namespace::*)}" p="{position()}"/></xsl:for-each><sel a="{count(//p:e)}" b="{count(//d:e)}" c="{count(//e)}" d="{count(//@p:a)}" xmlns:p="urn:p" xmlns:d="urn:d"/></out></xsl:template>'),
-                 doc(DOC_NS)))
+                 doc(DOC_NS), ctl=["nsaxis"], extra={"in_xmlnsxml.xml": doc(DOC_NS.replace("<r ", '<r xmlns:xml="http://www.w3.org/XML/1998/namespace" ', 1))}))
     L.append(inp("ns-result", ss('<xsl:template match="/"><o:out xmlns:o="urn:o" xmlns="urn:dflt"><in o:a="1" b="{count(//*)}"/><xsl:element name="x:el" namespace="urn:x"><xsl:attribute name="y:at" namespace="urn:y">v</xsl:attribute><none xmlns=""/></xsl:element><xsl:copy-of select="/*/*[1]"/><skipped xmlns:unused="urn:unused"/></o:out></xsl:template>',
                                       attrs='xmlns:ex="urn:ex" exclude-result-prefixes="ex"'),
                  doc(DOC_NS)))
@@ -98,12 +102,19 @@ def handmade():
     for name, out, f in [
             ("out-xml-utf8", '<xsl:output method="xml" encoding="UTF-8"/>', feat()),
             ("out-xml-latin1", '<xsl:output method="xml" encoding="ISO-8859-1"/>', feat()),
-            ("out-xml-ascii", '<xsl:output method="xml" encoding="US-ASCII"/>', feat()),
+            ("out-xml-ascii", '<xsl:output method="xml" encoding="US-ASCII"/>', feat()),      # its comment is ASCII (see below)
             ("out-xml-utf16", '<xsl:output method="xml" encoding="UTF-16"/>', feat(utf16=True)),
             ("out-xml-nodecl-doctype", '<xsl:output method="xml" omit-xml-declaration="yes" doctype-system="d.dtd"/>', feat()),
             ("out-xml-standalone", '<xsl:output method="xml" standalone="yes" version="1.0"/>', feat()),
             ("out-xml-cdata-elements", '<xsl:output method="xml" cdata-section-elements="p q"/>', feat())]:
-        L.append(inp(name, ss(BODY, top=out), doc(DOC_MIXED), f=f))
+        # a character the encoding cannot represent inside a comment is C04's subject (finding: written as &#233;), not repeated here
+        body = BODY.replace("<xsl:comment>cé</xsl:comment>", "<xsl:comment>ce</xsl:comment>") if name == "out-xml-ascii" else BODY
+        if name == "out-xml-cdata-elements":
+            nocd = ss(body, top='<xsl:output method="xml"/>')
+            L.append(inp(name, ss(body, top=out), doc(DOC_MIXED), f=f, ctl=["cdataelems"],
+                         extra={"main_nocdata.xsl": nocd, "in_nocdata.xml": doc(DOC_MIXED).replace('href="main.xsl"', 'href="main_nocdata.xsl"')}))
+        else:
+            L.append(inp(name, ss(body, top=out), doc(DOC_MIXED), f=f))
     HTML = ('<xsl:template match="/"><html><body class="c"><p id="p1">café &lt;&amp;&gt; text<br/>more</p><hr/><img src="a.png" alt="x"/><ul><xsl:for-each select="//b"><li><xsl:value-of select="."/></li></xsl:for-each></ul>'
             '<xsl:comment>note</xsl:comment><div title="a&amp;b"><span/>tail</div></body></html></xsl:template>')
     L.append(inp("out-html-utf8", ss(HTML, top='<xsl:output method="html" indent="no" encoding="UTF-8"/>'), doc(DOC_MIXED), f=feat("html")))
@@ -124,8 +135,10 @@ def handmade():
     L.append(inp("position-dump-ns", ss(DUMP), doc(DOC_NS)))
     # ---- DTD: ID attributes, defaulted attributes
     DTD = '<!DOCTYPE r [<!ATTLIST a id ID #IMPLIED dflt CDATA "dv"><!ATTLIST b id ID #IMPLIED>]>\n'
-    L.append(inp("dtd-id-default-attrs", ss('<xsl:template match="/"><out top="{count(/node())}" a2="{name(id(\'a2\'))}" b3="{id(\'b3\')}" many="{count(id(\'a1 b1 nope\'))}"><xsl:for-each select="//a"><a d="{@dflt}" n="{count(@*)}"/></xsl:for-each></out></xsl:template>'),
+    L.append(inp("dtd-id-default-attrs", ss('<xsl:template match="/"><out a2="{name(id(\'a2\'))}" b3="{id(\'b3\')}" many="{count(id(\'a1 b1 nope\'))}"><xsl:for-each select="//a"><a d="{@dflt}" n="{count(@*)}"/></xsl:for-each></out></xsl:template>'),
                  doc('<r><a id="a1"><b id="b1">1</b></a><a dflt="own" id="a2"><b id="b3">3</b></a></r>', prolog=DTD)))
+    L.append(inp("dtd-doctype-node", ss('<xsl:template match="/"><out top="{count(/node())}" before="{count(/*/preceding-sibling::node())}" name="{name(/node()[last() - 1])}"/></xsl:template>'),
+                 doc('<r><a id="a1"/></r>', prolog=DTD), ctl=["dtd"], extra={"in_nodtd.xml": doc('<r><a id="a1"/></r>')}))
     # ---- attribute values with escapes; characters needing escapes in the output
     L.append(inp("attr-escapes", ss('<xsl:template match="/"><out><xsl:for-each select="//e/@*"><a n="{name()}" l="{string-length()}" v="{.}"/></xsl:for-each><t><xsl:value-of select="//t"/></t></out></xsl:template>'),
                  doc('<r><e a="x&#10;y&#9;z" b="&quot;q&quot; &amp; &lt;" c="  two  spaces  "/><t>line1&#13;line2\ttab &#160;nbsp</t></r>')))
@@ -140,7 +153,9 @@ def handmade():
     L.append(inp("fail-terminate", ss('<xsl:template match="/"><out><a/><xsl:message terminate="yes">stop</xsl:message></out></xsl:template>'), doc("<r/>")))
     L.append(inp("fail-source-malformed", ss('<xsl:template match="/"><out/></xsl:template>'), '<?xml version="1.0"?>\n%s\n<r><a></r>\n' % PI))
     L.append(inp("fail-stylesheet-xpath", ss('<xsl:template match="/"><out v="{1 +* 2}"/></xsl:template>'), doc("<r/>")))
-    L.append(inp("fail-undefined-variable", ss('<xsl:template match="/"><out v="{$nope}"/></xsl:template>'), doc("<r/>")))
+    L.append(inp("undefined-variable-is-a-warning", ss('<xsl:template match="/"><out v="{$nope}"/></xsl:template>'), doc("<r/>")))
+    L.append(inp("fail-unknown-template", ss('<xsl:template match="/"><out><xsl:call-template name="nope"/></out></xsl:template>'), doc("<r/>")))
+    L.append(inp("fail-unknown-function", ss('<xsl:template match="/"><out v="{nope(1)}"/></xsl:template>'), doc("<r/>")))
     L.append(inp("fail-stylesheet-malformed", '<xsl:stylesheet version="1.0" %s><xsl:template match="/"><out></xsl:template></xsl:stylesheet>' % XSL, doc("<r/>")))
     return L
 
@@ -165,6 +180,7 @@ def render_doc(t, dtd):
 
 def generated(rng, n):
     docs = c02.make_docs(rng, max(6, n // 3))
+    nsdocs = [xdm.random_doc(rng, maxnodes=rng.choice([8, 12, 16]), ns=True) for _ in range(max(3, n // 10))]
     out = []
     for k in range(n):
         g = xslgen.XslGen(rng)
@@ -172,13 +188,22 @@ def generated(rng, n):
         # top-level parameters, shown on the document element of the result
         text = text.replace(">\n", '>\n<xsl:param name="ps" select="\'d\'"/><xsl:param name="pn" select="0"/>\n', 1)
         text = text.replace('<xsl:template match="/"><out>', '<xsl:template match="/"><out ps="{$ps}" pn="{$pn * 2}">', 1)
-        t = docs[rng.randrange(len(docs))]
-        in_order = k % 2 == 0                       # half of the documents already have their attributes in name order
+        t = docs[rng.randrange(len(docs))] if k % 5 != 3 else nsdocs[rng.randrange(len(nsdocs))]
+        f = feat()
+        if k % 5 == 1:                              # the wide writers (XalanOutputStream's own buffer) instead of the UTF-8 writer
+            text = text.replace("<xsl:param ", '<xsl:output encoding="ISO-8859-1"/><xsl:param ', 1)
+        elif k % 10 == 7:
+            text = text.replace("<xsl:param ", '<xsl:output encoding="UTF-16"/><xsl:param ', 1); f = feat(utf16=True)
+        dtd = k % 4 == 0                            # a quarter of the documents have a DOCTYPE (ID attributes) ...
+        in_order = k % 2 == 0                       # ... and those and another quarter have their attributes in name order already
         st = sort_attrs(t)
-        dtd = k % 3 == 0
-        xml = render_doc(st if in_order else t, dtd)
-        out.append({"name": "gen%d" % k, "kind": "gen", "files": {"main.xsl": text, "in.xml": xml, "in_sorted.xml": render_doc(st, dtd)},
-                    "feat": feat(), "sparam": ["ps", "s%d" % k], "nparam": ["pn", str(k % 7 + 0.5)]})
+        files = {"main.xsl": text, "in.xml": render_doc(st if in_order else t, dtd)}
+        ctl = []
+        if not in_order and files["in.xml"] != render_doc(st, dtd):
+            files["in_sorted.xml"] = render_doc(st, dtd)
+        if dtd:
+            files["in_nodtd.xml"] = render_doc(st, False); ctl.append("dtd")
+        out.append({"name": "gen%d" % k, "kind": "gen", "files": files, "feat": f, "sparam": ["ps", "s%d" % k], "nparam": ["pn", str(k % 7 + 0.5)], "ctl": ctl})
     return out
 
 
